@@ -1,0 +1,27 @@
+//! Verification hooks, compiled only with the cargo feature `verif` (off by default).
+//!
+//! Add-only: re-exports of the visitor traits that live in crate-private modules, so that an external harness can
+//! implement field / record-component / unknown-attribute visitors with interest masks of its own, and read-only
+//! accessors for crate-private fields of the tree. Nothing here changes the behaviour of the crate.
+
+pub use crate::visitor::attribute::UnknownAttributeVisitor;
+pub use crate::visitor::field::{FieldInterests, FieldVisitor};
+pub use crate::visitor::record::{RecordComponentInterests, RecordComponentVisitor};
+
+use crate::tree::method::code::{Label, LabelRange};
+use crate::tree::version::Version;
+
+/// The method-local id of a label.
+pub fn label_id(label: &Label) -> u16 {
+	label.id
+}
+
+/// The `(start, end)` labels of a range.
+pub fn label_range_bounds(range: &LabelRange) -> (Label, Label) {
+	(range.start, range.end)
+}
+
+/// The `(major, minor)` numbers of a class file version.
+pub fn version_numbers(version: &Version) -> (u16, u16) {
+	(version.major, version.minor)
+}
